@@ -51,16 +51,31 @@ MANIFEST = {
             'the template defaults must be unchanged.  Pickled state must '
             'omit _v_ data, a restored / copied template must keep source '
             'and defaults, and HTMLFile must pickle the file name only and '
-            're-read the file after unpickling.',
+            're-read the file after unpickling.  Feature families: for '
+            'each of ~55 small templates (one per tag / option, table in '
+            'dtmc/features.py) with three namespaces that differ in what a '
+            'memo could capture, all histories over {render ns0..2, pickle, '
+            'deepcopy} up to depth 3 (quick) / 4 (thorough), and all '
+            'ordered pairs (template F with namespace i, then template G '
+            'with namespace j); every render must equal the render of that '
+            '(template, namespace) alone in a pristine process (a child '
+            'forked from a zygote that has imported the library but never '
+            'compiled or rendered anything), and must leave the caller '
+            'data untouched.',
     'note': 'Trusted: dtmc/fingerprint.py as canonical form (deliberately '
             'over-fine: equal fingerprints = equal mutable state reachable '
             'by the renderer, so equal futures); the lazily imported '
             'class-level command table is pre-warmed and excluded (C18 '
-            'covers the compile race).',
+            'covers the compile race).  dtmc/pristine.py (zygote + fork '
+            'per observation) as the source of history-free results: it '
+            'also sees state kept at class or module level, which a fresh '
+            'template in the same process would share.',
 }
 DYNAMIC = True        # few heavy cases: dynamic load balancing
 RULE = ('operation histories over {R0,R1,R2,P,D,C,M0..M3,G0,G1} from 8 '
-        'initial templates; literal depth 3/4, deduplicated depth 8/12.  A '
+        'initial templates; literal depth 3/4, deduplicated depth 8/12; '
+        'feature table: histories over {R0,R1,R2,P,D} to depth 3/4 per '
+        'feature and all ordered (feature, namespace) pairs.  A '
         'transition is non-trivial when it is a render that follows at '
         'least one other operation.')
 ASSUMPTIONS = ['namespace objects are rebuilt for every replay so that '
